@@ -302,8 +302,27 @@ func rtZMaps(v *ZMaps) *ZMaps {
 }
 
 // H_C01_toplevel: top-level scalars come back in their canonical wire type.
+type ZSelfKids struct {
+	N    int32
+	Kids []*ZSelfKids
+}
+
 func H_C01_toplevel() {
-	switch vChoice("kind", 11) {
+	switch vChoice("kind", 12) {
+	case 11: // a top-level []T whose element type also has a []*T field: both travel as "[T" (known finding)
+		x := []ZSelfKids{{N: vInt32("x"), Kids: []*ZSelfKids{{N: 2}}}}
+		typMap, nameMap := vExtract(x)
+		bs, err := ToBytes(x, nameMap)
+		vAssert("enc", err == nil)
+		out, err := ToObject(bs, typMap)
+		vAssert("dec", err == nil)
+		if vIsOpen("C01-toplevel-slice-comes-back-in-pointer-form") {
+			got, ok := out.([]*ZSelfKids)
+			vAssert("slice-elements", ok && len(got) == 1 && got[0] != nil && got[0].N == x[0].N && len(got[0].Kids) == 1 && got[0].Kids[0].N == 2)
+		} else {
+			got, ok := out.([]ZSelfKids)
+			vAssert("slice-same-dynamic-type", ok && len(got) == 1 && got[0].N == x[0].N && len(got[0].Kids) == 1 && got[0].Kids[0].N == 2)
+		}
 	case 9: // a struct passed by value: the wire has objects only, the decoder hands out a pointer (known finding)
 		x := ZInner{N: vInt32("x"), S: "v"}
 		typMap, nameMap := vExtract(x)
